@@ -21,7 +21,7 @@ GROUPS.append(G("pos_ReadLnCont", "harness/C13/h_strutil.c", "h_ReadLnCont", enf
                 defs=["-DVERIF_READLN"], functions=["ReadLnCont"], flags=["--slice-formula"], bounded="logical lines joined from at most 3 physical lines of 0..3 characters each (plus CR/LF, ^Z, continuation)"))
 TRUSTED_BASE = ["ghost output channels / exit monitor of h_asmerr.c", "argument-logging stubs of h_as_rept.c"]
 ASSUMPTIONS = ["announcing the numbers of the EXPECT machinery's own messages (2130, 2150, 2160) is excluded"]
-NOT_COVERED = ["GetErrorPos chain concatenation", "MACRO_Processor line counting", "INCLUDE_SearchCore (file search), ReadLnCont (oracle: number of physical lines read)", "ReadLnCont continuation lines", "column markers", "-gnuerrors formatting"]
+NOT_COVERED = ["GetErrorPos chain concatenation", "MACRO_Processor line counting", "INCLUDE_SearchCore (file search)", "column markers", "-gnuerrors formatting"]
 EXPLANATION = ("Kernel only: (1) EXPECT/ENDEXPECT: an announced number is suppressed exactly once per announcement (multiset with witness number), "
                "unannounced numbers are untouched, ENDEXPECT reports every announcement left, a missing ENDEXPECT is reported at pass end; "
                "(2) REPT/IRP: after a body line was delivered, CurrLine and the position report name that iteration/parameter and that body line. "
@@ -30,7 +30,7 @@ MANIFEST = dict(
     category="other",
     text="Contracts on the kernel functions: EXPECT machinery of asmerr.c (suppression consumes exactly one matching announcement, ENDEXPECT reports "
          "the rest, pass exit reports a missing ENDEXPECT) and the position reports of repetition bodies in as.c (REPT_GetPos/IRP_GetPos agree with "
-         "what REPT_Processor/IRP_Processor just delivered; CurrLine = start line + body line), line counting across INCLUDE (fresh count inside, includer's count and file name restored) and the start line of every new input level. The run-level statement about every diagnostic of "
+         "what REPT_Processor/IRP_Processor just delivered; CurrLine = start line + body line), line counting across INCLUDE (fresh count inside, includer's count and file name restored) and the start line of every new input level; ReadLnCont returns the number of physical lines a logical line was joined from (bounded; a last line without newline counts). The run-level statement about every diagnostic of "
          "every program is not decided; the surroundings (include chain, macro bodies, column markers) are named unverified.",
     note="Bounded list lengths (<= 3 announcements, <= 3 body lines, <= 4 parameters). Trusted: ghost channels, logging stubs.",
 )
